@@ -206,10 +206,20 @@ def run(prog, rep):
     rc = [c for (b, i, c) in fn.calls() if c.get("callee") == "recvfrom"]
     nc = [(b, i, c) for (b, i, c) in fn.calls() if c.get("callee") == "p_socket_address_new_from_native"]
     if len(rc) == 1 and len(nc) == 1:
-        sa = root_var(rc[0]["args"][4])
-        sl = root_var(rc[0]["args"][5])
+        def obj(e):
+            # the object an argument designates, looking through a typed pointer local (`sa_ptr = (struct sockaddr *) &sa`)
+            e2 = strip_casts(e)
+            if e2 is not None and e2["k"] == "complit" and len((e2.get("e") or {}).get("items") or []) == 1:
+                e2 = strip_casts(e2["e"]["items"][0])          # glibc's transparent union __SOCKADDR_ARG around the pointer
+            if e2 is not None and e2["k"] == "ref" and e2.get("decl") == "local" and (fn.unit.type_of(e2) or {}).get("k") == "ptr":
+                r = fn.resolve(e2)
+                if r is not None and root_var(r) is not None:
+                    return root_var(r)
+            return root_var(e)
+        sa = obj(rc[0]["args"][4])
+        sl = obj(rc[0]["args"][5])
         b, i, c = nc[0]
-        a0, a1 = root_var(c["args"][0]), root_var(c["args"][1])
+        a0, a1 = obj(c["args"][0]), root_var(c["args"][1])
         ok = sa is not None and sa == a0 and sl is not None and sl == a1
         # only after the loop (success): the block is not inside the retry loop
         loops = [body for (h, body) in fn.loops()]
